@@ -554,16 +554,6 @@ Proof.
   intros H. split; [exact (v4_exact_unique base len H) | split; [exact (v4_witness base len H) | exact (v4_nodup base len H)]].
 Qed.
 
-(* ------------------------------------------------------------------ IPv6: a scoped /128 crashes *)
-(* fe80::1%eth0/128: subnets() yields the network itself, the address text carries the scope id,
-   the broadcast text does not, and the comparison loop indexes past its end (IndexError) *)
-Lemma v6_scoped_host_crash :
-  exists s a sc, parse_cidr s = Some (Net6 a 128 (Some sc)) /\ cidr_expand s = Crash C_IndexError.
-Proof.
-  exists [102;101;56;48;58;58;49;37;101;116;104;48;47;49;50;56]. eexists. eexists.
-  split; vm_compute; reflexivity.
-Qed.
-
 (* ------------------------------------------------------------------ IPv6: the coverage statement is false *)
 (* 2001:db8::/64 expands to the single pattern "2001:db8::", which does not match 2001:db8::1 *)
 Lemma v6_cover_refuted :
